@@ -1310,7 +1310,7 @@ def add_invariant_checks(cls: ClassT) -> None:
         else:
             wrapper = _decorate_with_invariants(func=init_func, is_init=True)
             if wrapper is not init_func or "__init__" in cls.__dict__:
-                setattr(cls, init_func.__name__, wrapper)
+                setattr(cls, "__init__", wrapper)
 
     # A member which the class merely inherits and which already carries the invariant checks must not be
     # copied into the class: the copy would shadow the definitions of the classes further along the method
